@@ -247,13 +247,21 @@ def assemble(files, values=None, *, route="inject", charset="bk", order=None, ha
 
 
 def write_aux_file(subdir, name, content):
-    """Real file for .include / insert_file (concrete content)."""
+    """Real file for .include / insert_file (concrete content); atomic, idempotent."""
     d = os.path.join(BUILD, "aux", subdir)
     os.makedirs(d, exist_ok=True)
     p = os.path.join(d, name)
-    mode = "wb" if isinstance(content, (bytes, bytearray)) else "w"
-    with open(p, mode) as f:
-        f.write(content)
+    data = content if isinstance(content, (bytes, bytearray)) else content.encode("utf-8")
+    try:
+        with open(p, "rb") as f:
+            if f.read() == data:
+                return p
+    except OSError:
+        pass
+    tmp = p + f".tmp{os.getpid()}"
+    with open(tmp, "wb") as f:
+        f.write(data)
+    os.replace(tmp, p)
     return p
 
 
